@@ -357,10 +357,9 @@ theorem expr_correct (code : Code) (sc : Scope) : (e : RecL.Expr) → RvSpec cod
 
 /-- `exprToE_correct` for every expression -/
 theorem exprToE_correct' (code : Code) (sc : Scope) (e : RecL.Expr) (t : ETy) (off : Nat) (s : St) (σ : Vm)
-    (hc : CodeAt code off (compileExprToE e t)) (hpc : σ.pc = off) (hr : Rel sc s σ) (hw : EWf sc e)
-    (hcs : CanStore e.ty t) :
+    (hc : CodeAt code off (compileExprToE e t)) (hpc : σ.pc = off) (hr : Rel sc s σ) (hw : EWf sc e) :
     RvPost code sc (compileExprToE e t).length off s σ (RecL.Ref.evalTo s.env e t) :=
-  exprToE_correct code sc e (expr_correct code sc e) t off s σ hc hpc hr hw hcs
+  exprToE_correct code sc e (expr_correct code sc e) t off s σ hc hpc hr hw
 
 /-- `exprTo_correct` for every expression -/
 theorem exprTo_correct' (code : Code) (sc : Scope) (e : RecL.Expr) (t : Ty) (off : Nat) (s : St) (σ : Vm)
